@@ -598,8 +598,14 @@ class SVG:
         self._resolve_use(clip_path_el)
 
         transform = _element_transform(clip_path_el, transform)
+        # clip-rule is inherited: children without their own take the clipPath's
+        inherited = {
+            k: v for k, v in clip_path_el.attrib.items() if k == "clip-rule"
+        }
         clip_paths = [
-            from_element(e).apply_transform(_element_transform(e, transform))
+            from_element(e, **inherited).apply_transform(
+                _element_transform(e, transform)
+            )
             for e in clip_path_el
         ]
 
